@@ -280,6 +280,27 @@ class Builder:
         self.expect.append(("String", k1, v1))
         self.expect.append(("Entry", t, k, [(fk, v)]))
 
+    def atvalue(self, n):
+        """@aa{k, f = {X{y}}}: n symbolic characters over '@', line feed, blank, filler in front of a nested group inside a
+        braced value ('jane@cs' + line break + '{...}' is text; only '@' + word + blanks/tabs + '{' starts a block)"""
+        self.lit("@")
+        t = (len(self.cs), len(self.cs) + 2)
+        self.lit("aa{")
+        k = (len(self.cs), len(self.cs) + 1)
+        self.lit("k, ")
+        fk = (len(self.cs), len(self.cs) + 1)
+        self.lit("f = ")
+        a = len(self.cs)
+        self.cs.append(self.eng.sym_char(f"t{len(self.cs)}", "{"))
+        for _ in range(n):
+            self.cs.append(self.eng.sym_char(f"t{len(self.cs)}", "@\n x"))
+        for ch in "{y}}":
+            self.cs.append(self.eng.sym_char(f"t{len(self.cs)}", ch))
+        v = (a, len(self.cs))
+        self.holes.append(("V", a, len(self.cs)))
+        self.lit("}")
+        self.expect.append(("Entry", t, k, [(fk, v)]))
+
     def resvtype(self, word, n):
         """an ENTRY whose type merely starts with a reserved word: @comment<X>{k, f = {v}}, @string<X>{...}, @preamble<X>{...}
         (biblatex's @commentary is such a type)"""
